@@ -233,4 +233,142 @@ theorem sexp_context {ms : List SMacro} {l r : List HTok} (h : SExp ms l r) :
       (collectArgs_append _ _ _ _ _ _ _ _ hc) hlen helen hargs hsub this
 
 
+/-! ## more fuel does not change the result -/
+
+theorem replaceParams_mono (ex ex' : List HTok → Except SErr (List HTok))
+    (hex : ∀ a r, ex a = .ok r → ex' a = .ok r) (ps : List String) (args : List (List HTok)) (prev : Option Tok)
+    (body : List Tok) (items : List Item) (h : replaceParams ex ps args prev body = .ok items) :
+    replaceParams ex' ps args prev body = .ok items := by
+  induction body generalizing prev items with
+  | nil => simpa [replaceParams] using h
+  | cons t rest ih =>
+    cases hr : replaceParams ex ps args (some t) rest with
+    | error e =>
+      unfold replaceParams at h
+      simp only [hr] at h
+      split at h <;> simp_all
+    | ok b =>
+      have hr' := ih (some t) b hr
+      by_cases ht : t = .hashhash
+      · subst ht
+        unfold replaceParams at h ⊢
+        simp only [if_true, hr, hr'] at h ⊢
+        exact h
+      · cases hp : paramIndex ps t with
+        | none =>
+          unfold replaceParams at h ⊢
+          simp only [ht, if_false, hp, hr, hr'] at h ⊢
+          exact h
+        | some i =>
+          by_cases hntp : (prev = some Tok.hashhash || rest.head? = some Tok.hashhash) = true
+          · unfold replaceParams at h ⊢
+            simp only [ht, if_false, hp, hntp, if_true, hr, hr'] at h ⊢
+            exact h
+          · cases hexa : ex (args.getD i []) with
+            | error e =>
+              unfold replaceParams at h
+              simp only [ht, if_false, hp, hntp, hexa, hr] at h
+              cases h
+            | ok ea =>
+              have hexa' := hex _ _ hexa
+              unfold replaceParams at h ⊢
+              simp only [ht, if_false, hp, hntp, hexa, hexa', hr, hr'] at h ⊢
+              exact h
+
+theorem subst_mono (ex ex' : List HTok → Except SErr (List HTok))
+    (hex : ∀ a r, ex a = .ok r → ex' a = .ok r) (m : SMacro) (args : List (List HTok)) (hs : List String)
+    (b : List HTok) (h : subst ex m args hs = .ok b) : subst ex' m args hs = .ok b := by
+  unfold subst at h ⊢
+  cases hr : replaceParams ex (m.params.getD []) args none m.body with
+  | error e => simp [hr] at h
+  | ok items =>
+    rw [replaceParams_mono ex ex' hex _ _ _ _ _ hr]
+    simpa [hr] using h
+
+theorem expand_mono (ms : List SMacro) (f : Nat) : ∀ (l r : List HTok), expand ms f l = .ok r →
+    expand ms (f + 1) l = .ok r := by
+  induction f with
+  | zero => intro l r h; simp [expand] at h
+  | succ f ih =>
+    intro l r h
+    cases l with
+    | nil => rw [expand] at h ⊢; exact h
+    | cons t rest =>
+      have hsub : ∀ m args hs b, subst (expand ms f) m args hs = .ok b → subst (expand ms (f + 1)) m args hs = .ok b :=
+        fun m args hs b => subst_mono _ _ ih m args hs b
+      have keepCase : (match expand ms f rest with
+            | .ok r => Except.ok (t :: r)
+            | .error e => .error e) = .ok r →
+          (match expand ms (f + 1) rest with
+            | .ok r => Except.ok (t :: r)
+            | .error e => .error e) = .ok r := by
+        intro hk
+        cases hr : expand ms f rest with
+        | error e => simp [hr] at hk
+        | ok r' => rw [ih rest r' hr]; simpa [hr] using hk
+      cases htk : t.tok with
+      | id n =>
+        rw [expand] at h ⊢
+        simp only [htk] at h ⊢
+        by_cases hc : t.hide.contains n = true
+        · simp only [hc, if_true] at h ⊢
+          exact keepCase h
+        · simp only [hc, Bool.false_eq_true, if_false] at h ⊢
+          cases hfind : find ms n with
+          | none => simp only [hfind] at h ⊢; exact keepCase h
+          | some m =>
+            simp only [hfind] at h ⊢
+            cases hpar : m.params with
+            | none =>
+              simp only [hpar] at h ⊢
+              cases hb : subst (expand ms f) m [] (n :: t.hide) with
+              | error e => simp [hb] at h
+              | ok b =>
+                simp only [hb, hsub _ _ _ _ hb] at h ⊢
+                exact ih _ _ h
+            | some ps =>
+              simp only [hpar] at h ⊢
+              cases rest with
+              | nil => exact keepCase h
+              | cons x xs =>
+                obtain ⟨xt, xh⟩ := x
+                cases xt with
+                | lparen =>
+                  simp only at h ⊢
+                  cases hca : collectArgs xs 0 [] [] with
+                  | none => simp [hca] at h
+                  | some p =>
+                    obtain ⟨args, hs', rest''⟩ := p
+                    simp only [hca] at h ⊢
+                    generalize (if ps.isEmpty = true ∧ args = [[]] then [] else args) = args2 at h ⊢
+                    by_cases hlen : args2.length = ps.length
+                    · simp only [hlen, ne_eq, not_true_eq_false, if_false] at h ⊢
+                      cases hb : subst (expand ms f) m args2 (n :: t.hide.filter (hs'.contains ·)) with
+                      | error e => rw [hb] at h; cases h
+                      | ok b =>
+                        rw [hb] at h
+                        rw [hsub _ _ _ _ hb]
+                        exact ih _ _ h
+                    · simp only [hlen, ne_eq, not_false_eq_true, if_true] at h
+                      cases h
+                | _ => exact keepCase h
+      | _ =>
+        rw [expand] at h ⊢
+        simp only [htk] at h ⊢
+        exact keepCase h
+
+theorem expand_mono_le (ms : List SMacro) {f f' : Nat} (hle : f ≤ f') (l r : List HTok)
+    (h : expand ms f l = .ok r) : expand ms f' l = .ok r := by
+  induction hle with
+  | refl => exact h
+  | step _ ih => exact expand_mono ms _ l r ih
+
+/-- the result does not depend on the fuel -/
+theorem expand_det (ms : List SMacro) (f f' : Nat) (l r r' : List HTok) (h : expand ms f l = .ok r)
+    (h' : expand ms f' l = .ok r') : r = r' := by
+  have h1 := expand_mono_le ms (Nat.le_max_left f f') l r h
+  have h2 := expand_mono_le ms (Nat.le_max_right f f') l r' h'
+  rw [h1] at h2
+  cases h2; rfl
+
 end RsslVerif.Lemmas.SpecExpand
